@@ -430,6 +430,10 @@ func (u *Universe) Next(r *rand.Rand, l *Log, v View, s *Session) *Request {
 		q.Tree, q.Branch, q.Size = true, b, size
 		if r.IntN(7) == 0 {
 			d.Ext = append(d.Ext, fmt.Sprintf("ext %d", r.Uint32()))
+			if r.IntN(3) == 0 {
+				// extension lines are opaque text: percent signs, printf verbs, escapes are all ordinary bytes
+				d.Ext = append(d.Ext, []string{"rollout 50%done %s %d %v", "path=/a%2Fb?x=%41", "100% %!x(MISSING) %%", `back\\slash \\n stays two characters`}[r.IntN(4)])
+			}
 			if r.IntN(4) == 0 {
 				d.Ext = append(d.Ext, "", "after-blank")
 			}
